@@ -598,7 +598,7 @@ def main():
         for s_ in r["succ"]:
             tags(s_)
     known_exempt = []
-    kf_path = os.path.join(VERIF, "known_findings.json")
+    kf_path = os.environ.get("VERIF_KF") or os.path.join(VERIF, "known_findings.json")
     if os.path.exists(kf_path):
         for e in json.load(open(kf_path)):
             if e.get("property") == "C03" and e.get("status") == "known":
@@ -607,6 +607,9 @@ def main():
                     if s.startswith("template-attr:"):
                         t, a = s[len("template-attr:"):].split("/@")
                         known_exempt.append((t, a))
+                    if s.startswith("template-content:"):
+                        t, c = s[len("template-content:"):].split("/")
+                        known_exempt.append((t, "#child:" + c))
     tmeta = []
     tdefs = []
     for i, (name, el, ty, complete) in enumerate(els):
@@ -648,17 +651,20 @@ def main():
         "  {| tp_id := %d; tp_ty := %d; tp_complete := %s; tp_node := tpl_%d |}" % (
             m["id"], m["ty"], "true" if m["complete"] else "false", m["id"]) for m in tmeta))
     out.append("Definition exempt : list (tag * aname) := [%s]." % "; ".join(
-        "(%d, %d)" % (tags.ids.get(t, FOREIGN), attrs.get(a, FOREIGN)) for t, a in known_exempt))
+        "(%d, %d)" % (tags.ids.get(t, FOREIGN), (1000000 + tags.ids.get(a[7:], FOREIGN)) if a.startswith("#child:") else attrs.get(a, FOREIGN))
+        for t, a in known_exempt))
     for i, r in enumerate(drows):
         r["id"] = i
     out.append("Definition decls : list decl := [\n%s\n]." % ";\n".join(
         "  {| dc_id := %d; dc_ty := %d; dc_child := %d; dc_succ := [%s] |}" % (
             r["id"], r["ty"], tags(r["child"]), "; ".join(str(tags(s)) for s in r["succ"])) for r in drows))
     out.append("Definition known_decl : list N := [%s]." % "; ".join(str(r["id"]) for r in drows if r["sig"] in known_decl))
+    grp = {}
     for i, r in enumerate(arows):
         r["id"] = i
+        r["grp"] = grp.setdefault((r["cls"], r["attr"]), len(grp))
     out.append("Definition adecls : list attrdecl := [\n%s\n]." % ";\n".join(
-        "  {| at_id := %d; at_ty := %d; at_name := %d; at_desc := %s |}" % (r["id"], r["ty"], r["aid"], r["desc"]) for r in arows))
+        "  {| at_id := %d; at_grp := %d; at_ty := %d; at_name := %d; at_desc := %s |}" % (r["id"], r["grp"], r["ty"], r["aid"], r["desc"]) for r in arows))
     out.append("Definition known_attr : list N := [%s]." % "; ".join(str(r["id"]) for r in arows if r["sig"] in known_attr))
     out.append("Close Scope string_scope.")
     out.append("Close Scope N_scope.")
